@@ -9,6 +9,9 @@ TRUST = ("Trusted base: Go type checker and go/ssa construction (x/tools v0.29.0
 
 # id -> (claimed?, technique, level text, not-decided / note, design ref)
 P = {
+ "C11": (True, "static analysis: SSA provenance, condition-consistent reachability, lock-state dataflow on correctable.go; AST rules on generated accessors",
+         "Decides initial state (LevelNotSet), reachability of intermediate publications on the not-done edge, that published values/levels are the quorum function's, monotonicity guard, once-only completion (no set after final set; set refuses a done correctable), lock discipline and watcher release loops, Watch-after-done, and nil-safety of generated typed accessors. Necessary structural conditions.",
+         "Not decided: real-time 'at once'; watcher wake-up latency; K9 stream exhaustion relies on C07 E6.", "DESIGN.md section 3, C11"),
  "C01": (True, "static analysis: SSA value provenance + dominance/must-pass-through rules on the reply loops; AST rules on generated wrappers",
          "Decides the data path from 'reply received' to 'value returned': success carries exactly the quorum function's result under its own verdict; the function gets the original request and one only-growing reply map written only with (nid,msg) of the response just received on the no-error edge; one call site, one goroutine, no call after quorum; every response names the node of the producing channel. Necessary structural conditions, not a proof of the behaviour.",
          "Not decided: transport fidelity; that the server's reply answers this call's request beyond the id echo (C05); user quorum functions' values.", "DESIGN.md section 3, C01"),
